@@ -24,6 +24,7 @@
 #include "dfs_catalog.h"  // for Catalog
 #include "dfs_format.h"   // for Format
 #include "dfstypes.h"     // for sector_count_type
+#include "verif_trace.h"
 
 namespace DFS
 {
@@ -66,6 +67,8 @@ class Volume
 
      std::optional<SectorBuffer> read_block(unsigned long lba) override
        {
+	 VERIF_EVENT("{\"e\":\"volread\",\"origin\":%lu,\"len\":%lu,\"lba\":%lu,\"ok\":%d}",
+		     origin_, len_, lba, lba >= len_ ? 0 : 1);
 	 if (lba >= len_)
 	   return std::nullopt;
 	 return underlying_.read_block(origin_ + lba);
